@@ -54,8 +54,8 @@ SPECS = {
         ],
     },
     "C10": {
-        "id": "C10", "runners": ["RunC01"],
-        "info_meaning": "[batches inside the builder model; batches fully judged by decode = interp]",
+        "id": "C10", "runners": ["RunC10"],
+        "info_meaning": "[batches inside the builder model or dictionary histories compared with the dictionary builder model; dictionary histories]",
         "assumptions": ["histories consist of rows the schema accepts (the statement speaks of successful pushes); behaviour after a failed push is not part of C10"],
     },
     "C11": {
